@@ -450,3 +450,29 @@ class ProfileChangeScore(BaseChangeScore):
 
     def _evaluate(self, cuts):
         return self._p[cuts[:, 1]].reshape(-1, 1)
+
+
+class WelchChangeScore(BaseChangeScore):
+    """A user-defined standardised mean-change score, per column |mean_after - mean_before| / sqrt(var_before / n_before +
+    var_after / n_after). It is undefined (NaN) for a column that does not vary within the two windows - a stuck sensor."""
+
+    def __init__(self, floor=0.0):
+        self.floor = floor
+        super().__init__()
+
+    @property
+    def min_size(self):
+        return 2
+
+    def _fit(self, X, y=None):
+        Xa = np.asarray(X, dtype=float)
+        self._rows = Xa.reshape(-1, 1) if Xa.ndim == 1 else Xa
+        return self
+
+    def _evaluate(self, cuts):
+        out = np.empty((len(cuts), self._rows.shape[1]))
+        with np.errstate(all="ignore"):
+            for i, (s, k, e) in enumerate(cuts):
+                a, b = self._rows[s:k], self._rows[k:e]
+                out[i] = np.abs(b.mean(axis=0) - a.mean(axis=0)) / np.sqrt(a.var(axis=0) / len(a) + b.var(axis=0) / len(b) + self.floor)
+        return out
